@@ -168,6 +168,185 @@ fn new_requests_for(msgs: &[Msg], _mon: &Mon, piece: u32, new_requests: usize) -
         .sum()
 }
 
+// -------------------------------------------------------------------------------------------
+// Two connections in end game: assignments get cancelled when the other connection finishes first
+// -------------------------------------------------------------------------------------------
+
+pub struct Tiling2 {
+    pub len: usize,
+}
+
+#[derive(Default, Clone)]
+pub struct ConnMon {
+    pub outstanding: Vec<(u32, u32, u32)>,
+    /// Piece the connection is currently asked for, and the blocks requested for it so far.
+    pub cur: Option<u32>,
+    pub requested: BTreeSet<(u32, u32)>,
+    pub answered_bytes: u32,
+    pub scanned: usize,
+}
+
+#[derive(Default)]
+pub struct Mon2 {
+    pub c: Vec<ConnMon>,
+}
+
+impl Scenario for Tiling2 {
+    type Mon = Mon2;
+    fn name(&self) -> String {
+        format!("tiling2-{}", self.len)
+    }
+    fn cfg(&self) -> WorldCfg {
+        WorldCfg { torrent: Torrent::new("t", self.len, &[("f", 3 * self.len)], true), have: vec![], peers: vec![peer_cfg(0, true), peer_cfg(1, false)], gated: false }
+    }
+    fn explore_choices(&self) -> bool {
+        true
+    }
+    fn setup(&self, w: &mut World, mon: &mut Mon2) {
+        let t = w.t.clone();
+        mon.c = vec![ConnMon::default(); 2];
+        for k in 0..2 {
+            let id = w.peers[k].cfg.id;
+            w.feed(k, &[refwire::handshake(t.meta.info_hash(), &id), Msg::Bitfield(vec![0xe0])]);
+        }
+    }
+    fn enabled(&self, w: &World, mon: &Mon2, _depth: usize) -> Vec<String> {
+        let mut e = vec![];
+        for k in 0..2 {
+            if w.peers[k].ended.get() {
+                continue;
+            }
+            // the unchoke comes at any point (so the two connections start in any order)
+            if w.handler(k).map(|h| h.choked).unwrap_or(false) {
+                e.push(format!("U{}", k));
+            }
+            for j in 0..mon.c[k].outstanding.len() {
+                e.push(format!("A{}:{}", k, j));
+            }
+        }
+        e
+    }
+    fn concretize(&self, w: &World, mon: &Mon2, sym: &str) -> Vec<Ev> {
+        let k: usize = sym[1..2].parse().unwrap();
+        if sym.starts_with('U') {
+            return vec![Ev::Feed(k, refwire::encode(&Msg::Unchoke))];
+        }
+        let j: usize = sym[3..].parse().unwrap();
+        let r = mon.c[k].outstanding[j];
+        vec![Ev::Feed(k, refwire::encode(&Msg::Piece(r.0, r.1, block_bytes(&w.t, &r))))]
+    }
+    fn check(&self, w: &World, mon: &mut Mon2, last: Option<&str>) -> Option<(&'static str, String)> {
+        if let Some(d) = &w.dead {
+            return Some(("manager-died", d.clone()));
+        }
+        if let Some(p) = w.handler_panics.first() {
+            return Some(("connection-task-panicked", p.clone()));
+        }
+        let t = &w.t;
+        let mut accepted: Option<(usize, (u32, u32, u32))> = None;
+        if let Some(sym) = last {
+            if sym.starts_with('A') {
+                let k: usize = sym[1..2].parse().unwrap();
+                let j: usize = sym[3..].parse().unwrap();
+                let r = mon.c[k].outstanding.remove(j);
+                mon.c[k].answered_bytes += r.2;
+                accepted = Some((k, r));
+            }
+        }
+        for k in 0..2 {
+            let msgs = &w.peers[k].msgs;
+            let mut new_requests_cur = 0u32;
+            let mut cancelled = false;
+            let before_requested: u32 = mon.c[k].requested.iter().map(|x| x.1).sum();
+            let cur_before = mon.c[k].cur;
+            for m in &msgs[mon.c[k].scanned..] {
+                match m {
+                    Msg::Cancel(i, b, l) => {
+                        mon.c[k].outstanding.retain(|r| r != &(*i, *b, *l));
+                        cancelled = true;
+                    }
+                    Msg::Request(i, b, l) => {
+                        let plen = match t.pieces.get(*i as usize) {
+                            Some(p) => p.len() as u32,
+                            None => return Some(("request-for-unknown-piece", format!("{:?}", m))),
+                        };
+                        if *l == 0 || *l > 16384 || b.checked_add(*l).map(|e| e > plen).unwrap_or(true) {
+                            return Some(("request-outside-piece-or-too-long", format!("connection {}: {:?} for a piece of {} bytes", k, m, plen)));
+                        }
+                        let c = &mut mon.c[k];
+                        let cur_done = c.cur.map(|p| c.answered_bytes >= t.pieces[p as usize].len() as u32).unwrap_or(true);
+                        if c.cur != Some(*i) {
+                            if !(cur_done || cancelled) {
+                                return Some(("request-names-another-piece", format!("connection {}: {:?} while piece {:?} is neither finished nor cancelled (requested {:?})", k, m, c.cur, c.requested)));
+                            }
+                            c.cur = Some(*i);
+                            c.requested.clear();
+                            c.answered_bytes = 0;
+                        } else if cancelled && cur_before == Some(*i) && c.requested.iter().any(|x| x.0 == *b) {
+                            // the same piece may be assigned again after a cancel: a fresh tiling
+                            c.requested.clear();
+                            c.answered_bytes = 0;
+                        }
+                        for (b2, l2) in c.requested.iter() {
+                            if *b < b2 + l2 && *b2 < b + l {
+                                return Some(("overlapping-or-repeated-request", format!("connection {}: {:?} overlaps ({}, {})", k, m, b2, l2)));
+                            }
+                        }
+                        c.requested.insert((*b, *l));
+                        c.outstanding.push((*i, *b, *l));
+                        new_requests_cur += 1;
+                    }
+                    _ => {}
+                }
+            }
+            mon.c[k].scanned = msgs.len();
+            if cancelled && mon.c[k].cur == cur_before && new_requests_cur == 0 {
+                mon.c[k].cur = None;
+                mon.c[k].requested.clear();
+                mon.c[k].answered_bytes = 0;
+            }
+            if let Some((ak, r)) = accepted {
+                if ak == k && !cancelled && cur_before == Some(r.0) && !w.peers[k].ended.get() {
+                    let plen = t.pieces[r.0 as usize].len() as u32;
+                    if before_requested < plen && new_requests_cur == 0 && !w.has_piece_file(r.0 as usize) {
+                        return Some(("accepted-block-not-followed-by-request", format!("connection {}: block {:?} was a correct answer to an outstanding request, {} bytes of the piece were never requested, and no request was written", k, r, plen - before_requested)));
+                    }
+                    if mon.c[k].answered_bytes >= plen && mon.c[k].cur == Some(r.0) && !w.has_piece_file(r.0 as usize) {
+                        return Some(("piece-not-completed-on-last-block", format!("connection {}: every block of piece {} was answered but it is not stored", k, r.0)));
+                    }
+                }
+            }
+            // no connection waits for a block that was already delivered
+            if let Some(h) = w.handler(k) {
+                if let Some(rx) = &h.piece_rx {
+                    for (b, l) in &rx.requested {
+                        if !mon.c[k].outstanding.iter().any(|o| o.0 as usize == rx.piece_index && o.1 as usize == *b && o.2 as usize == *l) {
+                            return Some(("connection-waits-for-a-block-already-delivered", format!("connection {} waits for ({}, {}) of piece {} but the peer owes only {:?}", k, b, l, rx.piece_index, mon.c[k].outstanding)));
+                        }
+                    }
+                } else if !mon.c[k].outstanding.is_empty() {
+                    return Some(("requested-blocks-not-tracked", format!("connection {} asked its peer for {:?} but holds no assembly buffer: the answers will be dropped", k, mon.c[k].outstanding)));
+                }
+            }
+        }
+        None
+    }
+    fn key(&self, w: &World, mon: &Mon2) -> String {
+        let c: Vec<String> = mon.c.iter().map(|c| format!("{:?}/{:?}/{:?}/{}", c.outstanding, c.cur, c.requested, c.answered_bytes)).collect();
+        format!("{} mon={:?}", crate::c12::strip_counters(&w.default_key()), c)
+    }
+    fn tags(&self, w: &World, _mon: &Mon2) -> Vec<&'static str> {
+        let mut t = vec![];
+        if (0..2).any(|k| w.new_msgs(k).iter().any(|m| matches!(m, Msg::Cancel(..)))) {
+            t.push("assignment cancelled because the other connection finished the piece");
+        }
+        if w.cmds.iter().any(|c| c.starts_with("PieceDone")) {
+            t.push("piece completed");
+        }
+        t
+    }
+}
+
 fn enum_blocks(ctx: &Ctx) -> u64 {
     let max = 5 * 16384 + 1;
     let parts = core::par_ranges(max as u64, core::workers() * 4, |_| core::set_quiet_panics(true), |_, a, b| {
@@ -208,11 +387,18 @@ pub fn run(ctx: &Ctx) -> Outcome {
         per.push(json!({"scenario": s.name(), "states": st.states, "transitions": st.transitions, "depth_completed": st.depth_completed, "frontier": st.frontier_sizes}));
         total.merge(&st);
     }
+    for len in ctx.tier.pick(vec![40000usize], vec![40000usize, 16385, 49152]) {
+        let s = Tiling2 { len };
+        let depth = ctx.tier.pick(9, 12);
+        let st = explore::bfs(ctx, &s, depth, ctx.tier.pick(25, 10));
+        per.push(json!({"scenario": Scenario::name(&s), "depth": depth, "states": st.states, "transitions": st.transitions, "depth_completed": st.depth_completed}));
+        total.merge(&st);
+    }
     let mut o = Outcome::new("model_checking");
     explore::stats_outcome(&total, &mut o);
     o.set("block_lists_enumerated", json!(enumerated));
     o.set("scenarios", Value::Array(per));
-    o.set("rule", json!("E-ENUM: PieceRx::left(n) for every n in 1..=81921. E-SYS: per piece length in [1,16383,16384,16385,32768,32769,49153] a 2-piece torrent (second piece = short last piece of 5 bytes); events A<k> = correct answer to the k-th outstanding request, D = duplicate of the last answered block; BFS over all histories until both pieces are complete (depth <= 14); a state = canonical snapshot of manager + handler + files + outstanding set."));
+    o.set("rule", json!("E-ENUM: PieceRx::left(n) for every n in 1..=81921. E-SYS: per piece length in [1,16383,16384,16385,32768,32769,49153] a 2-piece torrent (second piece = short last piece of 5 bytes); events A<k> = correct answer to the k-th outstanding request, D = duplicate of the last answered block; BFS over all histories until both pieces are complete (depth <= 14); a state = canonical snapshot of manager + handler + files + outstanding set. Two-connection scenarios (tiling2-<len>): 3 pieces of <len> bytes, two connections (end game, so both may be asked for the same piece and the slower one is cancelled and re-assigned), events U<k> unchoke, A<k>:<j> correct answer to the j-th outstanding request of connection k, every chooser tie-break; the same tiling / follow-up / completion obligations per assignment, plus: no connection waits for a block already delivered, requested blocks are tracked."));
     o.assume("one connection, honest payloads (corrupt ones are C01's subject), tie-breaks of the piece chooser fixed to the identity shuffle");
     o
 }
@@ -224,6 +410,9 @@ pub fn replay(_ctx: &Ctx, r: &Value) -> i32 {
         return 1;
     }
     let name = r["scenario"].as_str().unwrap();
+    if let Some(len) = name.strip_prefix("tiling2-") {
+        return explore::replay_verbose(&Tiling2 { len: len.parse().unwrap() }, &explore::hist_from_json(&r["history"]), "C10");
+    }
     let len: usize = name.trim_start_matches("tiling-").parse().unwrap();
     explore::replay_verbose(&Tiling { len }, &explore::hist_from_json(&r["history"]), "C10")
 }
